@@ -28,7 +28,7 @@ pub enum Profile {
 
 pub const MODES: [Mode; 6] = [Mode::ReadOnly, Mode::ReadWriteAppend, Mode::ReadWriteTruncate, Mode::ReadWriteCreate, Mode::ReadWriteCreateOrTruncate, Mode::ReadWriteCreateOrAppend];
 
-const VALID_NAMES: &[&str] = &["F0.DAT", "F1.DAT", "F2.DAT", "F3.DAT", "f4.dat", "F5", "PRE0.DAT", "PRE1.DAT", "PRE2.DAT", "RO.DAT", "HIDSYS.DAT", "INSUB.DAT", "EMPTY.DAT", "LEAF.BIN", "\u{c9}T\u{c9}.\u{a3}", "E5.DAT", "E10.DAT", "TOP.DAT", "INRO.DAT"];
+const VALID_NAMES: &[&str] = &["F0.DAT", "F1.DAT", "F2.DAT", "F3.DAT", "f4.dat", "F5", "PRE0.DAT", "PRE1.DAT", "PRE2.DAT", "RO.DAT", "HIDSYS.DAT", "INSUB.DAT", "EMPTY.DAT", "LEAF.BIN", "\u{c9}T\u{c9}.\u{a3}", "E5.DAT", "E10.DAT", "TOP.DAT", "INRO.DAT", "OLDLFN~1.TXT", "OLDLFN~1.TXT"];
 const DIR_NAMES: &[&str] = &["SUB0", "SUB1", "DEEP", "NEWDIR0", "NEWDIR1", "nd2", "BIGDIR", ".", "..", "RODIR", "HIDDIR"];
 const BAD_NAMES: &[&str] = &["TOOLONGNAME.TXT", "A B", "X*Y", "A.B.C", "\u{100}B", "A.TOOL", ".A", "A<B", "NAME.EX\u{1}"];
 
